@@ -286,7 +286,7 @@ VARIANTS = [
     dict(property="C01", name="cutoff-lowered-upsampling", file=SINC, expect="R-C01-cutoff-lower", old="    let f_cutoff = if resample_ratio >= 1.0 {\n        f_cutoff\n    } else {", new="    let f_cutoff = if resample_ratio >= 1.0 {\n        f_cutoff * 0.9\n    } else {"),
     # ---------------- C02
     dict(property="C02", name="cutoff-not-scaled", file=SINC, expect="R-C02-cutoff-upper", old="        f_cutoff * resample_ratio as f32\n    };", new="        f_cutoff\n    };"),
-    dict(property="C02", name="hann2-not-squared", file=WIN, expect="squared", old="WindowFunction::Blackman2 | WindowFunction::BlackmanHarris2 | WindowFunction::Hann2 => {", new="WindowFunction::Blackman2 | WindowFunction::BlackmanHarris2 => {"),
+    dict(property="C02", name="hann2-not-squared", file=WIN, expect="base/Hann2", old="WindowFunction::Blackman2 | WindowFunction::BlackmanHarris2 | WindowFunction::Hann2 => {", new="WindowFunction::Blackman2 | WindowFunction::BlackmanHarris2 => {"),
     dict(property="C02", name="blackman-uses-hann", file=WIN, expect="base/Blackman", old="WindowFunction::Blackman | WindowFunction::Blackman2 => blackman::<T>(npoints),\n        WindowFunction::Hann | WindowFunction::Hann2 => hann::<T>(npoints),",
          new="WindowFunction::Hann | WindowFunction::Hann2 | WindowFunction::Blackman | WindowFunction::Blackman2 => hann::<T>(npoints),"),
     dict(property="C02", name="blackman-harris-coefficient", file=WIN, expect="def/blackman_harris", old="let c = T::coerce(0.14128);", new="let c = T::coerce(0.14182);"),
@@ -401,8 +401,8 @@ VARIANTS = [
     dict(property="C11", name="any-active-early-exit", file=SYN, expect="R-C11-count", old="        // Copy new samples to input buffer.\n", new="        if !self.channel_mask.iter().any(|a| *a) {\n            return Ok((self.chunk_size_in, needed_len));\n        }\n        // Copy new samples to input buffer.\n"),
     dict(property="C13", name="input-loop-skips-first", file=LIB, expect="input-coverage", old="    for (chan, wave_in) in wave_in.iter().enumerate().filter(|(chan, _)| mask[*chan]) {", new="    for (chan, wave_in) in wave_in.iter().enumerate().skip(1).filter(|(chan, _)| mask[*chan]) {"),
     dict(property="C18", name="rounding-mode-set", file=SYN, expect="fp-control", old="    pub fn new(fft_size_in: usize, fft_size_out: usize) -> Self {\n", new="    pub fn new(fft_size_in: usize, fft_size_out: usize) -> Self {\n        #[cfg(target_arch = \"x86_64\")]\n        #[allow(deprecated)]\n        unsafe {\n            core::arch::x86_64::_mm_setcsr(core::arch::x86_64::_mm_getcsr() | 0x8000);\n        }\n"),
-    dict(property="C17", name="align-dependent-size", file=SYN, expect="R-C17-noninterference", old="        let wanted_subsize = chunk_size_in / sub_chunks;\n        let fft_chunks = div_ceil(wanted_subsize, min_chunk_in);\n        let fft_size_out = fft_chunks * sample_rate_output / gcd;\n        let fft_size_in = fft_chunks * sample_rate_input / gcd;\n\n        let resampler = FftResampler::<T>::new(fft_size_in, fft_size_out);\n        debug!(",
-         new="        let wanted_subsize = chunk_size_in / sub_chunks + std::mem::align_of::<T>() - std::mem::align_of::<T>() % 8;\n        let fft_chunks = div_ceil(wanted_subsize, min_chunk_in);\n        let fft_size_out = fft_chunks * sample_rate_output / gcd;\n        let fft_size_in = fft_chunks * sample_rate_input / gcd;\n\n        let resampler = FftResampler::<T>::new(fft_size_in, fft_size_out);\n        debug!("),
+    dict(property="C17", name="align-dependent-size", file=SYN, expect="R-C17-noninterference", old="        let wanted_subsize = chunk_size_in / sub_chunks;\n        // At least one block, also when sub_chunks exceeds the chunk size.\n        let fft_chunks = div_ceil(wanted_subsize, min_chunk_in).max(1);\n        let fft_size_out = fft_chunks * sample_rate_output / gcd;\n        let fft_size_in = fft_chunks * sample_rate_input / gcd;\n\n        let resampler = FftResampler::<T>::new(fft_size_in, fft_size_out);\n        debug!(",
+         new="        let wanted_subsize = chunk_size_in / sub_chunks + std::mem::align_of::<T>() - std::mem::align_of::<T>() % 8;\n        let fft_chunks = div_ceil(wanted_subsize, min_chunk_in).max(1);\n        let fft_size_out = fft_chunks * sample_rate_output / gcd;\n        let fft_size_in = fft_chunks * sample_rate_input / gcd;\n\n        let resampler = FftResampler::<T>::new(fft_size_in, fft_size_out);\n        debug!("),
     dict(property="C03", name="new-assert-on-chunk-parity", file=SYN, expect="R-C03-panic-sites", old="        let next_saved_frames = self.saved_frames + self.chunk_size_in;\n", new="        assert!(self.chunk_size_in % 2 == 0 || self.fft_size_in % 2 == 1);\n        let next_saved_frames = self.saved_frames + self.chunk_size_in;\n"),
     dict(property="C03", name="unwrap-on-last-sample", file=FAST, expect="R-C03-panic-sites", old="        let mut idx = self.last_index;\n\n        let mut n = 0;", new="        let mut idx = self.last_index;\n        let _tail = self.buffer[0].last().copied().unwrap();\n\n        let mut n = 0;"),
     dict(property="C10", name="reset-early-return-when-idle", file=SYN, expect="reset-single-exit", old="    fn reset(&mut self) {\n        self.overlaps\n            .iter_mut()\n            .for_each(|ch| ch.iter_mut().for_each(|s| *s = T::zero()));\n        self.input_buffers",
